@@ -105,6 +105,20 @@ def last_variant(stderr_text):
     return m[-1].strip() if m else '?'
 
 
+def still_progressing(stderr_text, window=120):
+    """Heartbeat lines '@@beat <seconds> <logical clock> <evaluations+operations>' are written every 5 s by every harness. True if the
+    logical clock or the evaluation counters still advanced within the last `window` seconds before the process was killed."""
+    beats = re.findall(r'^@@beat (\d+) (\d+) (\d+)$', stderr_text, re.M)
+    if len(beats) < 3:
+        return False
+    beats = [(int(a), int(b), int(c)) for a, b, c in beats]
+    last_t = beats[-1][0]
+    tail = [b for b in beats if b[0] >= last_t - window]
+    if len(tail) < 3:
+        return False
+    return (tail[0][1], tail[0][2]) != (tail[-1][1], tail[-1][2])
+
+
 def sanitizer_key(txt):
     """Derive a stable key from a sanitizer report: kind + first frame inside /repo."""
     m = re.search(r'ERROR: (AddressSanitizer|LeakSanitizer): ([^\n]*)', txt)
@@ -311,6 +325,11 @@ def main():
         res = job.result
         if getattr(job, 'retried', False) and not job.timed_out:
             inconclusive.append('watchdog fired once for %s (not reproduced on re-run)' % job.label())
+        if job.timed_out and still_progressing(getattr(job, 'stderr_full', '')):
+            # the wall-clock watchdog fired twice, but the heartbeat shows that executions were still being completed when the
+            # process was killed: too slow for the budget on this (loaded) machine, which says nothing about the property
+            inconclusive.append('process %s exceeded its wall-clock budget of %ds twice while still making progress (slow machine?): not evaluated' % (job.label(), job.timeout))
+            continue
         if job.timed_out:
             found.append((prop, 'hang:%s:%s' % (job.target, variant), 'process %s did not finish within %ds in two consecutive runs (variant in flight: %s)' % (job.label(), job.timeout, variant),
                           {'stderr_tail': job.stderr_tail[-3000:]}))
